@@ -29,9 +29,34 @@ structure Resp where
   body : Option Bytes         -- Content::None | Content::Payload
 deriving Repr
 
+/-! ### the by-name API `.x(name, ..)`: field names compare in any letter case
+A name of the standard table, however it is spelt, goes to the table (`Header::from_bytes`, as `Headers::from_iter` always did); any
+other name is looked up among the names already held, ignoring case (`held_name`), and the operation is carried out under that spelling. -/
+def lowerB (b : UInt8) : UInt8 := if 65 ≤ b && b ≤ 90 then b + 32 else b
+def ciEq (a b : Bytes) : Bool := a.map lowerB == b.map lowerB
+
+inductive XOp where
+  | set (name v : Bytes)
+  | remove (name : Bytes)
+  | append (name v : Bytes)
+deriving Repr
+
+def XOp.name : XOp → Bytes
+  | .set n _ | .remove n | .append n _ => n
+
+def stdIdx (c : Cfg) (n : Bytes) : Option Nat := c.names.findIdx? (ciEq · n)
+
+def heldName (h : Headers) (n : Bytes) : Bytes := ((h.custom.find? (ciEq ·.1 n)).map (·.1)).getD n
+
+def resolveX (c : Cfg) (h : Headers) : XOp → HOp
+  | .set n v => match stdIdx c n with | some k => .insert k v | none => .insertX (heldName h n) v
+  | .remove n => match stdIdx c n with | some k => .remove k | none => .removeX (heldName h n)
+  | .append n v => match stdIdx c n with | some k => .append k v | none => .appendX (heldName h n) v
+
 /-- the public operations on a `Response` -/
 inductive ROp where
-  | h (op : HOp)                              -- headers.set().X(..) / .x(..) / .SetCookie(..) (line already built)
+  | h (op : HOp)                              -- headers.set().X(..) / .SetCookie(..) (line already built)
+  | x (op : XOp)                              -- headers.set().x(name, ..)
   | payload (ctype : Bytes) (body : Bytes)    -- set_text / set_html / set_json / set_payload
   | drop                                      -- drop_content
 deriving Repr
@@ -62,6 +87,7 @@ def dropContent (c : Cfg) (r : Resp) : Resp :=
 
 def applyOp (c : Cfg) (r : Resp) : ROp → Resp
   | .h op => hop c r op
+  | .x op => hop c r (resolveX c r.headers op)
   | .payload ct b => setPayload c r ct b
   | .drop => dropContent c r
 
